@@ -45,7 +45,7 @@ def int_cases(rng, extra_random):
     return out
 
 
-POSITIONS = ["init", "return", "argument", "assign", "element", "condition", "member", "constant"]
+POSITIONS = ["init", "return", "argument", "assign", "element", "condition", "member", "constant", "paren", "operand", "parenarg", "index"]
 
 
 def program(t, text, pos="init"):
@@ -58,6 +58,10 @@ def program(t, text, pos="init"):
     if pos == "element": return head + "\tvar a: [2]%s = [0, %s];\n\tvar x: %s = a[1];\n" % (t, text, t) + pr
     if pos == "condition": return head + "\tvar z: %s = 0;\n\tvar x: u8 = 0;\n\tif z != %s\n\t{\n\t\tx = 1;\n\t}\n" % (t, text) + pr
     if pos == "member": return "struct S\n{\n\tm: %s,\n}\n" % t + head + "\tvar s = S { m: %s };\n\tvar x: %s = s.m;\n" % (text, t) + pr
+    if pos == "paren": return head + "\tvar x: %s = (%s);\n" % (t, text) + pr
+    if pos == "operand": return head + "\tvar z: %s = 0;\n\tvar x: %s = z + (%s);\n" % (t, t, text) + pr
+    if pos == "parenarg": return "fn id(a: %s) -> %s\n{\n\treturn: a\n}\n" % (t, t) + head + "\tvar x: %s = id(((%s)));\n" % (t, text) + pr
+    if pos == "index": return head + "\tvar a: [2]%s = [(%s), 0];\n\tvar x: %s = a[(0)];\n" % (t, text, t) + pr
     if pos == "constant": return "const K: %s = %s;\n" % (t, text) + head + "\tvar x: %s = K;\n" % t + pr
     return head + "\tvar x: %s = %s;\n" % (t, text) + pr
 
